@@ -15,6 +15,7 @@ CLAIMED = {
  "C15": ("Merge.tla: the windowed merge mechanism is checked against MergeOK (per-base sum) exhaustively and by random walks; every input is replayed through merge_sections_many under a window embedding, merge_into on all overlapping pairs, fill / fill_start_to_end on all small streams; the real bigwigmerge is run over data sets x clip/adjust/threshold x output naming; all outputs judged by TLC", "TLC model checking/simulation + replay + real binary + TLC observation validation", "4 C15"),
  "C16": ("Cli.tla: configuration space and path-selection table of the converters; MC_Cli draws configurations (threads, parallel, passes, buffering, compression, block size, zooms, native/UCSC flags, own-name/multicall/mixed-case invocation, restricted output); the real CLI main is run there and back; TLC judges the parsed records with the round-trip / range-query predicates", "TLC simulation of the configuration space + real binaries + TLC observation validation", "4 C16"),
  "C17": ("Stats.tla (per-region size/covered/sum/mean0/mean/min/max as exact integers and cross-multiplied quotients, name modes, per-base values); MC_Stats enumerates data set x region lists x name mode x --min-max x -t; the real bigwigaverageoverbed (also byte-compared with -t 1), bigwigvaluesoverbed and the library function are run; TLC judges every row", "TLC enumeration + real binaries/library + TLC observation validation", "4 C17"),
+ "C19": ("AutoSql.tla: token-level grammar, generator of well-formed schemas, field-count rule; MC_AutoSql enumerates all single declarations over 12 field forms, multi-declaration schemas, every truncation / single-token mutation of a base set, every short token string, and 0..40 extra BED columns; the real parser runs on each (watchdog + address-space limit), the writer and bedtobigbed/bigbedinfo store and report the schema; TLC judges totality, acceptance with the declared fields, verbatim storage and header field counts", "TLC enumeration + replay (parser, writer, binaries) + TLC observation validation", "4 C19"),
  "C18": ("Slicing.tla: bisection indexer, FileView (clamping cursor) and chunker; TLC checks mechanism => IndexExact / ChunksOK on every small grouped file and enumerates every bounded read/seek sequence; each file / sequence is executed on the real index_chroms, FileView and split_file_into_chunks_by_size and judged by TLC", "TLC model checking + replay + TLC observation validation", "4 C18"),
  "C09": ("files written by the real writers from TLC-generated layouts are decoded by an independent codec; TLC evaluates BBIFormat!WellFormed (header/offset/count consistency, chromosome tree, every R-tree incl. containment and Search = LinearScan, block rules) and that the decoded records, summary and zoom records are those of the input", "TLC enumeration/simulation + independent decode + TLC validation of the decoded image", "4 C09"),
  "C10": ("MC_AnyWriter.tla draws well-formed layouts over the cross product of byte order, compression, section types, chromosome-tree and R-tree shapes/placements, versions, summary, zoom; an independent encoder writes them (guarded by TLC: WellFormed(decode(bytes)) and Records = data set); the real plain and caching readers are queried exhaustively and every answer is judged by TLC", "TLC simulation of a nondeterministic writer + independent encode + replay on the readers + TLC observation validation", "4 C10"),
